@@ -30,6 +30,22 @@ def nt():
 
 
 # ------------------------------------------------------------------ canonical bytes / hashes
+COARSE = [False]      # hv_coarse: floats quantised to ~1e-9 of the array's magnitude (cross-PROCESS comparisons)
+
+
+def _quant(a):
+    a = np.asarray(a)
+    m = float(np.max(np.abs(a[np.isfinite(a)]))) if a.size and np.any(np.isfinite(a)) else 0.0
+    if m == 0.0:
+        return np.zeros(a.shape, dtype=np.int64).tobytes() + np.isnan(a).tobytes()
+    scale = 2.0 ** np.ceil(np.log2(m))
+    with np.errstate(all='ignore'):
+        q = np.round(np.nan_to_num(a / scale, nan=0.0, posinf=2.0, neginf=-2.0) * 1e9)
+    if np.iscomplexobj(q):
+        q = np.stack([q.real, q.imag])
+    return q.astype(np.int64).tobytes() + np.isnan(a).tobytes() + ('%d' % int(np.ceil(np.log2(m)))).encode()
+
+
 def canon(v, h, depth=0):
     ts, _ = nt()
     if depth > 6:
@@ -60,6 +76,9 @@ def canon(v, h, depth=0):
             if a.dtype.kind in 'fc':
                 a = a + 0          # -0.0 and +0.0 are the same value (which one a sum of exact zeros yields depends on
                 #                    the SIMD path numpy takes for the buffer's alignment, i.e. on the process)
+                if COARSE[0]:
+                    h.update(_quant(a))
+                    return
             h.update(np.ascontiguousarray(a).tobytes())
     elif isinstance(v, (tuple, list)):
         h.update(('L%d(' % len(v)).encode())
@@ -73,9 +92,12 @@ def canon(v, h, depth=0):
             canon(v[k], h, depth + 1)
         h.update(b')')
     elif isinstance(v, (np.generic,)):
-        h.update(('S%s' % v.dtype.str).encode() + (np.asarray(v) + 0 if v.dtype.kind in 'fc' else np.asarray(v)).tobytes())
+        if COARSE[0] and v.dtype.kind in 'fc':
+            h.update(('S%s' % v.dtype.str).encode() + _quant(np.asarray(v)))
+        else:
+            h.update(('S%s' % v.dtype.str).encode() + (np.asarray(v) + 0 if v.dtype.kind in 'fc' else np.asarray(v)).tobytes())
     elif isinstance(v, (int, str, bool, type(None), float, complex)):
-        h.update(('P%s:%r' % (type(v).__name__ if not isinstance(v, float) else 'float', (float(v) + 0.0) if isinstance(v, float) and not isinstance(v, bool) else v)).encode())
+        h.update(('P%s:%r' % (type(v).__name__ if not isinstance(v, float) else 'float', (float('%.9e' % v) if COARSE[0] else float(v) + 0.0) if isinstance(v, float) and not isinstance(v, bool) else v)).encode())
     elif callable(v):
         h.update(('F:%s' % getattr(v, '__name__', type(v).__name__)).encode())
     else:
@@ -92,6 +114,16 @@ def hv(v):
     except Exception as e:  # un-hashable exotic object: identity is all we can say
         h.update(('<canon-failed %s>' % type(e).__name__).encode())
     return h.hexdigest()[:16]
+
+
+def hv_coarse(v):
+    """hash that ignores differences below ~1e-9 of an array's magnitude: FFT / BLAS kernels choose their SIMD path by the
+    buffer's alignment, so two PROCESSES may differ in the last bits of the same computation"""
+    COARSE[0] = True
+    try:
+        return hv(v)
+    finally:
+        COARSE[0] = False
 
 
 # ------------------------------------------------------------------ invocation log
